@@ -55,7 +55,8 @@ package dispatcher
 //@   ensures[C06] disp_fwd_n <= old(disp_fwd_n) + 1
 //@   requires[C01] bankNonneg(bank)
 //@   ensures[C01] err == nil ==> bankNonneg(bank)
-//@   ensures[C01] err == nil ==> bal(bank, orb(), transferAttr.destinationCoin.Denom) == 0 && orbNoGainExcept(transferAttr.destinationCoin.Denom)
+//@   ensures[C01,C11] err == nil ==> bal(bank, orb(), transferAttr.destinationCoin.Denom) == 0
+//@   ensures[C01] err == nil ==> orbNoGainExcept(transferAttr.destinationCoin.Denom)
 //@   ensures[C02,C11] err == nil ==> forwarding.Attributes != nil && fwdAttrKnown(forwarding.Attributes.cachedValue) &&
 //@                      bank == fwdLedger(old(bank), transferAttr.destinationCoin.Denom, val(transferAttr.destinationCoin.Amount), forwarding.Attributes.cachedValue) &&
 //@                      val(transferAttr.destinationCoin.Amount) > 0 && bal(old(bank), orb(), transferAttr.destinationCoin.Denom) == val(transferAttr.destinationCoin.Amount)
